@@ -58,6 +58,8 @@ VARIABLES
 vars == <<tree, done, stk, np>>
 
 Unary == {"opt", "ref", "box", "arc", "erased", "dedup", "asmap"}
+SpanOps == {"span", "span_with"}
+MetricOps == {"metric", "metric_with"}
 Transparent == {"opt", "ref", "box", "arc", "erased", "asmap"}
 
 -----------------------------------------------------------------------------
@@ -163,8 +165,10 @@ Segs(t) ==
       [] t.op \in Transparent -> Segs(t.t)
       \* the well-known properties (in any order), then the user properties: a user
       \* property that repeats a well-known key comes later and so never wins
-      [] t.op = "span" -> <<[ord |-> FALSE, kvs |-> SortKVs(SpanPrefix)]>> \o Segs(t.t)
-      [] t.op = "metric" -> <<[ord |-> FALSE, kvs |-> SortKVs(MetricPrefix)]>> \o Segs(t.t)
+      \* (span_with / metric_with: the same views put together through the builder methods
+      \* with_props / map_props / with_name / with_extent / .. instead of `new`)
+      [] t.op \in SpanOps -> <<[ord |-> FALSE, kvs |-> SortKVs(SpanPrefix)]>> \o Segs(t.t)
+      [] t.op \in MetricOps -> <<[ord |-> FALSE, kvs |-> SortKVs(MetricPrefix)]>> \o Segs(t.t)
       [] t.op = "and" -> Segs(t.l) \o Segs(t.r)
       [] t.op = "dedup" ->
             LET inner == Segs(t.t)
@@ -210,8 +214,8 @@ FE(t, c, n) ==
       [] t.op \in {"btree", "hash", "ctxt"} -> Loop(SortKVs(t.kvs), 1, c, n)
       [] t.op = "macro" -> Loop(MacroEnumB(t.ents), 1, c, n)
       [] t.op \in Transparent -> FE(t.t, c, n)
-      [] t.op \in {"span", "metric"} ->       \* for_each(KEY, ..)?; ..; self.props.for_each(for_each)
-            LET a == Loop(IF t.op = "span" THEN SpanPrefix ELSE MetricPrefix, 1, c, n)
+      [] t.op \in SpanOps \cup MetricOps ->  \* for_each(KEY, ..)?; ..; self.props.for_each(for_each)
+            LET a == Loop(IF t.op \in SpanOps THEN SpanPrefix ELSE MetricPrefix, 1, c, n)
             IN IF a.brk THEN a
                ELSE LET b == FE(t.t, a.c, n)
                     IN [vis |-> a.vis \o b.vis, c |-> b.c, brk |-> b.brk]
@@ -348,6 +352,15 @@ EnumIsSpec ==
     IN /\ Adm(FE(tree, 0, 0).vis, segs)
        /\ \A i \in 1..Len(segs) : ~segs[i].ord => ~HasDup(segs[i].kvs)
 
+\* A map view (`as_map()`) is also read through serde::Serialize, sval::Value, Display and
+\* Debug.  Every channel must yield exactly the enumeration of the collection it views
+\* (`p.as_map()`: p's enumeration, duplicates included; `p.dedup().as_map()`: every key once
+\* with its first value).  Level A is Segs again; level B: each serializer is `for_each`
+\* with a visitor that only breaks when the sink fails, i.e. FE(t, 0, 0).
+Channels == <<"for_each", "serde", "sval", "display", "debug">>
+SerB(t) == FE(t, 0, 0).vis
+SerIsEnum == Adm(SerB(tree), Segs(tree))
+
 -----------------------------------------------------------------------------
 (* spec -> code: the collection and what the statement predicts for it *)
 Replay(t) ==
@@ -356,6 +369,7 @@ Replay(t) ==
     [tree |-> t,
      segs |-> Segs(t),
      keys |-> KeyOrder,
+     channels |-> Channels,
      get |-> [i \in 1..Len(KeyOrder) |-> [k |-> i, v |-> First(flat, i)]],
      uniqB |-> UniqB(t),
      enumB |-> FE(t, 0, 0).vis]
